@@ -2,7 +2,7 @@
    reader sugar, dotted identifiers, bracket strings and f-strings (enough for every
    printed value of C27; ModelRoundTrip.v extends it for C25). *)
 From HyV Require Import Print.Syntax Print.Names Print.Reader Print.ModelRepr Print.ReaderFacts
-     Print.StringFacts Print.AtomFacts Print.SugarFacts.
+     Print.StringFacts Print.AtomFacts Print.SugarFacts Print.FStringFacts Print.FString Print.FStringRead Print.FStrRepr.
 From Coq Require Import Lia.
 
 (* what the theorems assume about the numeric oracles *)
@@ -48,14 +48,27 @@ Inductive ok : model -> Prop :=
     ok x -> ok (MNode KExpr [MSym name; x])
 (* a form printed as a dotted identifier: leading dots (then the second element is None) and dot-free parts *)
 | OkDotted dots parts :
-    forallb (N.eqb ch_dot) dots = true -> parts <> [] -> Forall (part_ok W) parts ->
+    forallb (N.eqb ch_dot) dots = true -> parts <> [] -> Forall (dpart_ok W) parts ->
     (dots = [] -> (2 <= length parts)%nat /\ hd [] parts <> s_None /\ dispatch (hd 0 (hd [] parts)) = DDefault) ->
     num W (dots ++ join_dot parts) = NotNum ->
     ok (MNode KExpr (match dots with
                      | [] => MSym [ch_dot] :: map MSym parts
                      | _ :: _ => MSym dots :: MSym s_None :: map MSym parts
                      end))
-| OkBracket d s : bracket_ok d s -> ok (MStr s (Some d)).
+| OkBracket d s : bracket_ok d s -> ok (MStr s (Some d))
+(* an f-string or t-string written with quotes: String components and replacement fields *)
+| OkFStr ts comps : Forall (fc_ok ts) comps -> fseq_ok W comps -> ok (MNode (KFStr None ts) comps)
+with fc_ok : bool -> model -> Prop :=
+| FcStr ts s :
+    s <> [] -> valid_text s -> contains bsNlc (flat_map (hy_esc W (py_quote s)) s) = false -> fc_ok ts (MStr s None)
+| FcField ts conv x0 spec :
+    ok x0 -> N.eqb (hd 0 (mrepr W x0)) c_lc = false -> spec_ok spec -> fc_ok ts (MNode (KFComp conv ts) (x0 :: spec))
+(* a format spec: nothing, plain text, or one nested field *)
+with spec_ok : list model -> Prop :=
+| SpNone : spec_ok []
+| SpStr sp : sp <> [] -> forallb plain_char sp = true -> spec_ok [MStr sp None]
+| SpField conv x0 spec :
+    fc_ok false (MNode (KFComp conv false) (x0 :: spec)) -> spec_ok [MNode (KFComp conv false) (x0 :: spec)].
 
 Notation item := (item_ok W (mrepr W)).
 
@@ -213,7 +226,7 @@ Proof.
     cbn [mrepr skipn]. rewrite map_mrepr_syms, <- join_dot_intersperse. reflexivity.
 Qed.
 
-Lemma join_dot_ident parts : Forall (part_ok W) parts -> forallb ident_char (join_dot parts) = true.
+Lemma join_dot_ident parts : Forall (dpart_ok W) parts -> forallb ident_char (join_dot parts) = true.
 Proof.
   induction 1 as [|p parts (_ & Hp & _) _ IH]; [reflexivity|]. destruct parts as [|q parts]; [exact Hp|].
   change (join_dot (p :: q :: parts)) with (p ++ ch_dot :: join_dot (q :: parts)).
@@ -221,7 +234,7 @@ Proof.
 Qed.
 
 Lemma dotted_token dots parts :
-  forallb (N.eqb ch_dot) dots = true -> parts <> [] -> Forall (part_ok W) parts ->
+  forallb (N.eqb ch_dot) dots = true -> parts <> [] -> Forall (dpart_ok W) parts ->
   (dots = [] -> dispatch (hd 0 (hd [] parts)) = DDefault) ->
   token_ok (dots ++ join_dot parts).
 Proof.
@@ -239,15 +252,181 @@ Proof.
 Qed.
 
 (* ---------------------------------------------------------------- the induction *)
-Lemma Forall_item ms : Forall ok ms -> Forall (fun m => ok m -> item m) ms -> Forall item ms.
+(* ---------------------------------------------------------------- replacement fields of printed f-strings *)
+(* what is shown of a replacement-field node: it denotes an f-string part that is well formed for the reader,
+   is rendered as hy-repr prints the node, and is read back as the node *)
+Definition field_facts (m : model) : Prop :=
+  part_ok W (part_of W m) /\ render (part_of W m) = mrepr W m /\ part_comps (part_of W m) = [clear_ts m].
+
+Definition field_part (m : model) : Prop :=
+  match m with
+  | MNode (KFComp conv ts) (x0 :: spec) => fc_ok ts m -> field_facts m
+  | _ => True
+  end.
+
+Definition both (m : model) : Prop := (ok m -> item m) /\ field_part m.
+
+Lemma item_expr_reads x : item x -> expr_reads W x (mrepr W x).
 Proof.
-  intros H1 H2. induction H1 as [|m ms Hm _ IH]; [constructor|].
-  inversion H2; subst. constructor; auto.
+  intros [_ Hrd] tail Ht. apply reads_one_of_form, Hrd.
+  destruct tail as [|c r]; [destruct Ht|]. cbn in *. destruct Ht as [H| ->]; [left; exact H|right; reflexivity].
 Qed.
 
-Theorem ok_item : forall m, ok m -> item m.
+Lemma field_facts_intro ts conv x0 spec :
+  item x0 -> N.eqb (hd 0 (mrepr W x0)) c_lc = false -> spec_ok spec ->
+  (forall cv y sp, spec = [MNode (KFComp cv false) (y :: sp)] -> field_facts (MNode (KFComp cv false) (y :: sp))) ->
+  field_facts (MNode (KFComp conv ts) (x0 :: spec)).
 Proof.
-  induction m as [s|s|z|f|a b|s br|b|k ms IH] using model_ind'; intros Hok; inversion Hok; subst.
+  intros Hx Hh Hs Hnested. pose proof (item_expr_reads x0 Hx) as Her.
+  destruct Hx as [(c & t & Ex & Hc1 & _) _].
+  assert (Ht : match mrepr W x0 with c :: _ => is_ws c = false | [] => False end) by (rewrite Ex; exact Hc1).
+  destruct Hs as [|sp Hne Hpl|cv y sp Hfc].
+  - (* no spec *)
+    unfold field_facts. cbn [part_of is_nil negb]. split; [|split].
+    + apply part_ok_field. destruct conv; cbn [app];
+        refine (conj eq_refl (conj eq_refl (conj I (conj _ (conj Ht (conj Hh (conj Her (conj _ (conj _ I))))))))); try reflexivity; try discriminate; try (intros _; reflexivity).
+      intros _. repeat split.
+    + cbn [mrepr node_repr map render]. unfold fcomp_repr. cbn [nth dbg_text conv_text]. destruct conv; cbn [app]; rewrite <- ?app_assoc; reflexivity.
+    + rewrite part_comps_field. destruct conv; reflexivity.
+  - (* plain text *)
+    unfold field_facts. cbn [part_of is_nil negb]. split; [|split].
+    + apply part_ok_field. destruct conv; cbn [app];
+        refine (conj eq_refl (conj eq_refl (conj I (conj _ (conj Ht (conj Hh (conj Her (conj _ (conj _ _))))))))); try reflexivity; try discriminate.
+      all: cbn [parts_ok lit_ok]; repeat split; try exact Hpl.
+    + cbn [mrepr node_repr map render]. unfold fcomp_repr. cbn [nth dbg_text conv_text map concat render app]. rewrite app_nil_r.
+      destruct conv; cbn [app]; rewrite <- ?app_assoc; reflexivity.
+    + rewrite part_comps_field. rewrite comps_from_lit, comps_from_nil. cbn [app]. unfold flush.
+      destruct sp; [congruence|]. destruct conv; reflexivity.
+  - (* one nested field *)
+    destruct (Hnested cv y sp eq_refl) as (P1 & P2 & P3).
+    unfold field_facts. cbn [is_nil negb].
+    assert (Epart : part_of W (MNode (KFComp conv ts) [x0; MNode (KFComp cv false) (y :: sp)])
+                    = PField [] x0 (mrepr W x0) [ch_space] None
+                             (match conv with Some c0 => Some (c0, [ch_space]) | None => None end) true
+                             [part_of W (MNode (KFComp cv false) (y :: sp))]).
+    { cbn [part_of is_nil negb]. destruct conv; reflexivity. }
+    rewrite Epart. split; [|split].
+    + apply part_ok_field. cbn [app].
+      refine (conj eq_refl (conj eq_refl (conj I (conj _ (conj Ht (conj Hh (conj Her (conj _ (conj _ _))))))))); try discriminate.
+      * destruct conv; [reflexivity|exact I].
+      * change (part_of W (MNode (KFComp cv false) (y :: sp))) with (part_of W (MNode (KFComp cv false) (y :: sp))).
+        destruct (part_of W (MNode (KFComp cv false) (y :: sp))) eqn:Ep; [cbn [part_of] in Ep; discriminate|].
+        cbn [parts_ok]. split; [reflexivity|split; [exact P1|exact I]].
+    + cbn [render map concat]. rewrite app_nil_r, P2. cbn [mrepr node_repr map]. unfold fcomp_repr.
+      cbn [nth dbg_text conv_text app]. destruct conv; cbn [app]; rewrite <- ?app_assoc; reflexivity.
+    + rewrite part_comps_field.
+      assert (Ec : comps_from [] [part_of W (MNode (KFComp cv false) (y :: sp))] = [MNode (KFComp cv false) (y :: sp)]).
+      { destruct (part_of W (MNode (KFComp cv false) (y :: sp))) eqn:Ep; [cbn [part_of] in Ep; discriminate|].
+        rewrite comps_from_field, comps_from_nil, P3. reflexivity. }
+      rewrite Ec. destruct conv; reflexivity.
+Qed.
+
+(* ---------------------------------------------------------------- a whole printed f-string *)
+Definition comp_facts (c : model) : Prop :=
+  match c with MNode (KFComp _ _) (_ :: _) => field_facts c | _ => True end.
+
+Lemma fc_ok_shape ts c : fc_ok ts c ->
+  (exists s, c = MStr s None /\ s <> [] /\ valid_text s /\ contains bsNlc (flat_map (hy_esc W (py_quote s)) s) = false)
+  \/ (exists conv x0 spec, c = MNode (KFComp conv ts) (x0 :: spec)).
+Proof. intros H. destruct H; [left; eauto 6|right; eauto]. Qed.
+
+Lemma str_lit_ok s : valid_text s -> contains bsNlc (flat_map (hy_esc W (py_quote s)) s) = false ->
+  lit_ok W false [] (flat_map (fesc W (py_quote s)) s) (flat_map (hy_esc W (py_quote s)) s) s.
+Proof.
+  intros Hv Hc. cbn [lit_ok]. destruct (quote_sides s) as [Hq Hd]. apply str_run; [exact Hq| |exact Hc].
+  unfold valid_text in Hv. rewrite Forall_forall in *. intros c Hin. split; [apply Hv; exact Hin|apply Hd; exact Hin].
+Qed.
+
+Lemma fstr_parts ts comps : Forall (fc_ok ts) comps -> fseq_ok W comps -> Forall comp_facts comps ->
+  parts_ok W false [] (map (part_of W) comps) /\ comps_from [] (map (part_of W) comps) = map clear_ts comps.
+Proof.
+  induction comps as [|c r IH]; intros HF Hs Hc; [split; [exact I|reflexivity]|].
+  inversion HF as [|? ? Hfc HF']; subst. inversion Hc as [|? ? Hcf Hc']; subst.
+  destruct (fc_ok_shape ts c Hfc) as [(s & -> & Hne & Hv & Hcont)|(conv & x0 & spec & ->)].
+  - (* a string *)
+    pose proof (str_lit_ok s Hv Hcont) as Hlit. cbn [fseq_ok] in Hs. destruct r as [|d r'].
+    + cbn [map part_of]. unfold lit_part. cbn [parts_ok]. split; [split; [exact Hlit|exact I]|].
+      rewrite comps_from_lit, comps_from_nil. unfold flush. destruct s; [congruence|reflexivity].
+    + inversion HF' as [|? ? Hfd _]; subst.
+      destruct (fc_ok_shape ts d Hfd) as [(s' & -> & _)|(conv & x0 & spec & ->)]; [destruct Hs|].
+      destruct Hs as [Hends Hs]. destruct (IH HF' Hs Hc') as [Hp Hcm].
+      cbn [map] in Hp, Hcm |- *. change (part_of W (MStr s None)) with (lit_part W s). unfold lit_part.
+      remember (part_of W (MNode (KFComp conv ts) (x0 :: spec))) as pf eqn:Epf.
+      assert (Hpf : exists a b c0 d0 e f g h, pf = PField a b c0 d0 e f g h).
+      { subst pf. cbn [part_of]. repeat eexists. }
+      destruct Hpf as (a & b & c0 & d0 & e & f & g & h & ->).
+      cbn [parts_ok] in Hp |- *. destruct Hp as (_ & Hp1 & Hp2). split.
+      * split; [exact Hlit|]. cbn [app]. split; [exact Hends|split; assumption].
+      * rewrite comps_from_lit. cbn [app]. rewrite comps_from_field in Hcm |- *. cbn [flush is_str_empty app] in Hcm.
+        unfold flush at 1. destruct s as [|c1 s1]; [congruence|]. cbn [is_str_empty app map clear_ts]. f_equal. exact Hcm.
+  - (* a field *)
+    cbn [comp_facts] in Hcf. destruct Hcf as (P1 & P2 & P3).
+    assert (Hs' : fseq_ok W r) by exact Hs. destruct (IH HF' Hs' Hc') as [Hp Hcm].
+    cbn [map]. remember (part_of W (MNode (KFComp conv ts) (x0 :: spec))) as pf eqn:Epf.
+    assert (Hpf : exists a b c0 d0 e f g h, pf = PField a b c0 d0 e f g h).
+    { subst pf. cbn [part_of]. repeat eexists. }
+    destruct Hpf as (a & b & c0 & d0 & e & f & g & h & ->).
+    cbn [parts_ok]. split; [split; [reflexivity|split; assumption]|].
+    rewrite comps_from_field, P3, Hcm. reflexivity.
+Qed.
+
+Lemma fstr_render ts comps : Forall (fc_ok ts) comps -> Forall comp_facts comps ->
+  concat (map (fun mr => if is_mstr (fst mr) then double_braces (cut_1_m1 (snd mr)) else snd mr)
+              (combine comps (map (mrepr W) comps)))
+  = render_all (map (part_of W) comps).
+Proof.
+  induction comps as [|c r IH]; intros HF Hc; [reflexivity|].
+  inversion HF as [|? ? Hfc HF']; subst. inversion Hc as [|? ? Hcf Hc']; subst.
+  cbn [map combine concat fst snd]. unfold render_all in *. cbn [map concat]. rewrite (IH HF' Hc'). f_equal.
+  destruct (fc_ok_shape ts c Hfc) as [(s & -> & Hne & Hv & Hcont)|(conv & x0 & spec & ->)].
+  - cbn [is_mstr mrepr part_of]. unfold lit_part. cbn [render]. apply fstr_literal_text. exact Hv.
+  - cbn [is_mstr]. cbn [comp_facts] in Hcf. destruct Hcf as (_ & P2 & _). symmetry. exact P2.
+Qed.
+
+Lemma fstr_restore ts comps : Forall (fc_ok ts) comps ->
+  (if ts then map set_tstring (map clear_ts comps) else map clear_ts comps) = comps
+  /\ Forall (fun c => match c with MStr _ br => br = None | _ => True end) comps.
+Proof.
+  induction 1 as [|c r Hfc _ IH]; [destruct ts; split; constructor|]. destruct IH as [IH1 IH2].
+  destruct (fc_ok_shape ts c Hfc) as [(s & -> & _)|(conv & x0 & spec & ->)].
+  - split; [|constructor; [reflexivity|exact IH2]]. destruct ts; cbn [map clear_ts set_tstring]; f_equal; exact IH1.
+  - split; [|constructor; [exact I|exact IH2]]. destruct ts; cbn [map clear_ts set_tstring]; f_equal; exact IH1.
+Qed.
+
+Lemma fstr_item ts comps : Forall (fc_ok ts) comps -> fseq_ok W comps -> Forall comp_facts comps ->
+  item (MNode (KFStr None ts) comps).
+Proof.
+  intros HF Hs Hc. destruct (fstr_parts ts comps HF Hs Hc) as [Hp Hcm].
+  pose proof (fstr_render ts comps HF Hc) as Hr. destruct (fstr_restore ts comps HF) as [Hrest Hbr].
+  assert (Er : mrepr W (MNode (KFStr None ts) comps)
+               = (if ts then 116 else 102) :: c_dq :: render_all (map (part_of W) comps) ++ [c_dq]).
+  { cbn [mrepr node_repr]. unfold fstr_repr. rewrite Hr. reflexivity. }
+  split.
+  { exists (if ts then 116 else 102), (c_dq :: render_all (map (part_of W) comps) ++ [c_dq]).
+    split; [exact Er|]. destruct ts; split; reflexivity. }
+  intros rest Hrest0. rewrite Er.
+  destruct (read_rendered W false (map (part_of W) comps) [] rest Hp) as [_ [n Hn]].
+  cbn [cl_of st_of closer_of rev app] in Hn. rewrite Hcm in Hn.
+  apply (reads_intro W (S n)); [|discriminate]. rewrite rd_S. unfold form_body.
+  cbn [app]. rewrite skip_ws_nonws by (destruct ts; reflexivity).
+  assert (Hd : dispatch (if ts then 116 else 102) = DDefault) by (destruct ts; reflexivity). rewrite Hd.
+  unfold default_body, span_ident. rewrite span_none by reflexivity.
+  change (N.eqb c_dq c_dq) with true. cbv iota.
+  assert (Hpf : prefix_flags [if ts then 116 else 102] = Some (false, false, if ts then FmT else FmF)) by (destruct ts; reflexivity).
+  rewrite Hpf. cbv iota beta. unfold read_string_body. cbn [init_state]. rewrite <- app_assoc. cbn [app].
+  destruct ts; rewrite Hn; unfold mk_fstring; rewrite Hrest, (join_strs_id W comps Hs Hbr); reflexivity.
+Qed.
+
+Lemma Forall_item ms : Forall ok ms -> Forall both ms -> Forall item ms.
+Proof.
+  intros H1 H2. induction H1 as [|m ms Hm _ IH]; [constructor|].
+  inversion H2 as [|? ? [Hb _] H2']; subst. constructor; auto.
+Qed.
+
+Theorem ok_both : forall m, both m.
+Proof.
+  induction m as [s|s|z|f|a b|s br|b|k ms IH] using model_ind';
+    (split; [intros Hok; inversion Hok; subst|try exact I]).
   - (* symbol *)
     match goal with H : sym_ok _ _ |- _ => rename H into Hs end.
     destruct (token_head s (proj1 Hs)) as (c & r & E & H1 & H2).
@@ -303,7 +482,7 @@ Proof.
     intros rest Hr. rewrite E. rewrite <- !app_assoc. cbn [app].
     apply (read_open_seq KExpr c_rp c_lp); [reflexivity|reflexivity|reflexivity|exact HF].
   - (* reader sugar *)
-    inversion IH as [|? ? IHn IH1]; subst. inversion IH1 as [|? ? IHx _]; subst.
+    inversion IH as [|? ? IHn IH1]; subst. inversion IH1 as [|? ? [IHx _] _]; subst.
     match goal with H : ok x |- _ => pose proof (IHx H) as Hx end.
     destruct Hx as [(c & t & Ex & Hc1 & Hc2) Hrd].
     assert (Hone : forall rest, delim_start rest -> reads W RdOne (mrepr W x ++ rest) (ROne x rest)).
@@ -350,7 +529,23 @@ Proof.
     apply (item_of_form _ c r); [congruence|exact Hw1|exact Hw2|].
     intros rec rest Hr. rewrite Er, read_token by assumption.
     rewrite dotted_read; try assumption; [reflexivity|]. intros E0. destruct (H0 E0) as (A & _). exact A.
+  - (* f-string *)
+    match goal with H : Forall (fc_ok ts) ms |- _ => rename H into Hfc end.
+    apply fstr_item; try assumption.
+    clear - IH Hfc. induction Hfc as [|c r Hc _ IHr]; [constructor|]. inversion IH as [|? ? [_ Hfp] IH']; subst.
+    constructor; [|apply IHr; exact IH'].
+    destruct Hc as [ts s|ts conv x0 spec Hx Hh Hsp]; [exact I|]. cbn [comp_facts]. apply Hfp. constructor; assumption.
+  - (* a replacement-field node: the facts used above *)
+    destruct k as [| | | | |br ts|conv ts]; try exact I. destruct ms as [|x0 spec]; [exact I|].
+    cbn [field_part]. intros Hfc. inversion Hfc as [|? ? ? ? Hx Hh Hsp]; subst.
+    inversion IH as [|? ? [Hxi _] IHspec]; subst.
+    apply field_facts_intro; [apply Hxi; exact Hx|exact Hh|exact Hsp|].
+    intros cv y sp E. subst spec. inversion IHspec as [|? ? [_ Hfp] _]; subst. cbn [field_part] in Hfp. apply Hfp.
+    inversion Hsp; subst. assumption.
 Qed.
+
+Theorem ok_item : forall m, ok m -> item m.
+Proof. intros m. exact (proj1 (ok_both m)). Qed.
 
 (* hy.read on the printed text *)
 Corollary read_back m : ok m -> reads W RdOne (mrepr W m) (ROne m []).
